@@ -103,9 +103,10 @@ def v_skipping_whitespace(rng, rules):
 def v_memoize_no_clone(rng, rules):
     rs = [r for r in rules if r['kind'] == 'rule']
     r = rng.choice(rs)
-    if 'memoize' not in r['dirs']:
-        r['dirs'].append('memoize')
-    return rules, rng.choice(['Debug', 'EMPTY', 'Debug,PartialEq']), '@memoize without Clone'
+    which = rng.choice(['memoize', 'memoize', 'leftrec'])      # @leftrec results are cloned out of the cache too (fix F11)
+    if which not in r['dirs']:
+        r['dirs'].append(which)
+    return rules, rng.choice(['Debug', 'EMPTY', 'Debug,PartialEq']), '@%s without Clone' % which
 
 
 def v_nonascii_insensitive(rng, rules):
@@ -150,6 +151,8 @@ def v_include_missing(rng, rules):
 def v_bad_identifier(rng, rules):
     kind = rng.choice(['rule_name', 'field_name', 'type_ref', 'check_fn', 'extern_fn', 'extern_ret', 'derive', 'charrule_name', 'char_check'])
     bad = rng.choice(['1a', '9', 'self', 'Self', 'super', '0_x'])
+    if kind in ('rule_name', 'field_name', 'type_ref', 'charrule_name') and rng.random() < 0.25:
+        bad = 'crate'        # fine as the first segment of a function path, not as the name of an item or field (fix F11)
     derives = '-'
     if kind == 'rule_name':
         rules.append(dict(kind='rule', dirs=[], name=bad, body=gen.choice(gen.seq(gen.lit('k')))))
@@ -226,6 +229,9 @@ def gen_cases(seed, tier):
     ]
     for i, (rules, label) in enumerate(fixed):
         cases.append(dict(id='f%d' % i, rules=rules, derives='-', expect='reject', label=label))
+    cases.append(dict(id='fv0', derives='-', expect='accept', label='crate:: path in @check / @extern stays legal', rules=[
+        dict(kind='rule', dirs=['export', ('check', ['crate', 'checks', 'ok'])], name='A', body=gen.choice(gen.seq(F('e', 'E')))),
+        dict(kind='extern', fn=['crate', 'ext'], ret=['crate', 'T'], name='E')]))
     return cases
 
 
